@@ -28,6 +28,7 @@ import numpy as np
 from ..core import Machinery, frac, close, run_tlc, validate_trace
 from .. import fx_retrieval as fx
 from .. import fx_like as fl
+from .. import fx_likeobs as fo
 
 SAMPLERS = ('nestle', 'multinest', 'polychord')
 REL = 1e-9
@@ -110,15 +111,30 @@ def make_optimizer(sampler, obs, model, tmpdir):
 
 def toy_bound(sampler, layout, tmpdir):
     model = fl.make_toy(layout)
-    obs = fx.make_toy_obs(layout)
+    obs = fo.make_toy_obs(layout)                # "obs": the observation carries fitted parameters (offset, scale)
     opt = make_optimizer(sampler, obs, model, tmpdir)
     w = fx.TOY[layout]
     for n, f in zip(w['names'], w['fit']):
         if f:
             opt.enable_fit(n)
+    for par in fo.obs_params(layout):
+        if par[6]:
+            opt.enable_fit(par[0])
     fl.install_user_priors(opt, layout)          # "mixed": priors in the other space than the parameter's mode
     opt.compile_params()
-    return Bound(sampler, opt, tmpdir), model
+    return Bound(sampler, opt, tmpdir), model, obs
+
+
+def toy_values(layout, model, obs):
+    """Values held by the model's parameters, then by the observation's (the specification's `val`)."""
+    return [float(v) for v in model.values] + [float(obs[par[0]]) for par in fo.obs_params(layout)]
+
+
+def obs_moved(layout, step):
+    """A loglike step of a behaviour whose observation parameters differ from their initial values."""
+    pars = fo.obs_params(layout)
+    return bool(pars) and step['op'] == 'loglike' and \
+        [float(v) for v in step['vals'][-len(pars):]] != [float(p[5]) for p in pars]
 
 
 def call_class(step):
@@ -133,13 +149,13 @@ def call_class(step):
 
 def replay_behaviour(ctx, sampler, beh, tmpdir):
     layout = beh['layout']
-    b, model = toy_bound(sampler, layout, tmpdir)
+    b, model, obs = toy_bound(sampler, layout, tmpdir)
     C = fx.gauss_const(fx.TOY[layout]['sig'])
-    nfit = sum(fx.TOY[layout]['fit'])
+    nfit = sum(fx.TOY[layout]['fit']) + sum(1 for par in fo.obs_params(layout) if par[6])
     if b.ndim != nfit:
         ctx.verdict('ndim', False, cls='%s:%s' % (sampler, layout), detail='ndim %r' % b.ndim, vector=None)
     for i, step in enumerate(beh['hist']):
-        cls = '%s:%s:%s' % (sampler, layout, call_class(step))
+        cls = '%s:%s:%s%s' % (sampler, layout, call_class(step), ':obs-moved' if obs_moved(layout, step) else '')
         vec = dict(kind='behaviour', sampler=sampler, layout=layout, hist=beh['hist'][:i + 1])
         if step['op'] == 'prior':
             u = [float(frac(v)) for v in step['u']]
@@ -164,7 +180,7 @@ def replay_behaviour(ctx, sampler, beh, tmpdir):
         ctx.verdict('never_raises', raised is None, cls=cls, detail='loglike raised %r' % (raised,), vector=vec)
         if raised is not None:
             return
-        vals = [float(v) for v in model.values]
+        vals = toy_values(layout, model, obs)
         okw = all(a == float(c) for a, c in zip(vals, step['vals']))
         ctx.verdict('written_is_prior_of_x', okw, cls=cls, detail='model holds %r expected %r' % (vals, step['vals']),
                     vector=vec)
@@ -187,6 +203,7 @@ def replay_behaviour(ctx, sampler, beh, tmpdir):
 
 
 FAULT_RUNS = (('InvalidModel', 'NaNAll'), ('InvalidChemistry', 'NaNSome'), ('InvalidTemperature', 'NaNAll'))
+FAULT_RUNS_OBS = (('InvalidModel', 'NaNAll'), ('InvalidTemperature', 'NaNSome'))     # quick tier, layout "obs"
 
 
 def run_behaviours(ctx, nbeh, depth, layouts):
@@ -195,7 +212,8 @@ def run_behaviours(ctx, nbeh, depth, layouts):
         total = 0
         seen = set()
         for li, layout in enumerate(layouts):
-            for fi, (fault, nanfault) in enumerate(FAULT_RUNS):
+            runs = FAULT_RUNS_OBS if (layout == 'obs' and ctx.tier == 'quick') else FAULT_RUNS
+            for fi, (fault, nanfault) in enumerate(runs):
                 cfg = make_sim_cfg(layout, fault, nanfault, depth)
                 try:
                     res = run_tlc('MC_Likelihood', cfg, workers=1, simulate='num=%d' % nbeh, depth=depth,
@@ -211,6 +229,7 @@ def run_behaviours(ctx, nbeh, depth, layouts):
                     sampler = SAMPLERS[(bi + fi) % 3]
                     replay_behaviour(ctx, sampler, beh, tmpdir)
                     seen |= {(layout, call_class(st)) for st in beh['hist']}
+                    seen |= {(layout, call_class(st) + ':obs-moved') for st in beh['hist'] if obs_moved(layout, st)}
                     total += 1
                     ctx.traces += 1
                 if li == 0 and fi == 0:
@@ -220,6 +239,11 @@ def run_behaviours(ctx, nbeh, depth, layouts):
             for c in ('prior', 'valid', 'natural-invalid', 'inject:NaNAll', 'inject:NaNSome', 'inject:InvalidModel'):
                 if (layout, c) not in seen:
                     raise Machinery('simulated behaviours of layout %s never contain a %s call' % (layout, c))
+            # an observation with parameters: valid and invalid calls with the observation moved off its initial state
+            if fo.obs_params(layout):
+                for c in ('valid:obs-moved', 'natural-invalid:obs-moved'):
+                    if (layout, c) not in seen:
+                        raise Machinery('simulated behaviours of layout %s never contain a %s call' % (layout, c))
         return total
     finally:
         shutil.rmtree(tmpdir, ignore_errors=True)
@@ -234,6 +258,8 @@ def make_sim_cfg(layout, fault, nanfault, depth):
     text = text.replace('Depth = 9', 'Depth = %d' % depth)
     text = text.replace('  Faults = {"InvalidModel"}', '  Faults = {"%s"}' % fault)
     text = text.replace('NaNFaults = {"NaNAll"}', 'NaNFaults = {"%s"}' % nanfault)
+    if layout == 'obs':
+        text = text.replace('UDen = 4', 'UDen = 2')      # four fitted parameters: fewer prior successors per state
     return write_cfg(text)
 
 
@@ -599,6 +625,8 @@ def run(ctx):
     if not q:
         ctx.check_spec('exhaustive-three', 'MC_Likelihood', 'MC_Likelihood_thorough.cfg',
                        need_actions=('PriorCall', 'LogLike'))
+    # the observation carries fitted parameters (offset, scale): the data side of chi2 follows the vector of THIS call
+    ctx.check_spec('exhaustive-obs', 'MC_Likelihood', 'MC_Likelihood_obs.cfg', need_actions=('PriorCall', 'LogLike'))
     ctx.exhaustive = True
     # non-vacuity of the clauses / design-level finding L-C06 (as-built mechanism)
     ctx.expect_refuted('asbuilt-chi2-zero', 'MC_Likelihood', 'MC_Likelihood_asbuilt.cfg', 'ValidEqualsGaussian')
@@ -607,7 +635,11 @@ def run(ctx):
     ctx.expect_refuted('write-by-parameter-mode', 'MC_Likelihood', 'MC_Likelihood_bymode.cfg', 'WrittenIsPriorOfX')
     # a model that is NaN in every bin scored as chi2 = 0
     ctx.expect_refuted('all-nan-scored-zero', 'MC_Likelihood', 'MC_Likelihood_allnan.cfg', 'InvalidNeverFinite')
-    n = run_behaviours(ctx, 30 if q else 300, 9 if q else 12, ('two', 'mixed') if q else ('two', 'three', 'mixed'))
+    # chi2 against a copy of the observed spectrum captured when compute_fit starts / read before update_model
+    ctx.expect_refuted('observation-frozen-copy', 'MC_Likelihood', 'MC_Likelihood_obsfrozen.cfg', 'ValidEqualsGaussian')
+    ctx.expect_refuted('observation-one-call-late', 'MC_Likelihood', 'MC_Likelihood_obslag.cfg', 'ValidEqualsGaussian')
+    n = run_behaviours(ctx, 30 if q else 300, 9 if q else 12,
+                       ('two', 'mixed', 'obs') if q else ('two', 'three', 'mixed', 'obs'))
     ctx.note('replayed %d simulated behaviours' % n)
     run_traces(ctx, 45 if q else 600, 14 if q else 20)
 
